@@ -261,6 +261,44 @@ def bounded_grid(ctx, repo, it, tag, sliding, iw, recs, loc):
     return True
 
 
+def _count_on_grid(it, rets, sliding, iw, sww):
+    """True when the returned count equals the specified number of splits on every feasible grid instance, a witness dict when
+    it differs, None when a trace cannot be concretised."""
+    from ..absint import concrete
+    for n in range(2, 15):
+        for w in range(1, 6):
+            for step in range(1, 5):
+                for fh in GRID_FH:
+                    for iwv in ((None,) if not iw else range(w + 1, w + 4)):
+                        env = {"n": n, "w": w, "step": step, "fh[0]": fh[0], "fh[-1]": fh[-1], "len(fh)": len(fh)}
+                        if iwv is not None:
+                            env["iw"] = iwv
+                        if not sww:
+                            continue  # the grid specification is written for start_with_window=True
+                        spec = spec_cutoffs(n, w, step, fh, iwv)
+                        if spec is None or not (w + max(fh) <= n) or not (iwv is None or iwv + max(fh) <= n):
+                            continue
+                        vals = []
+                        try:
+                            for st_, v in rets:
+                                taken = True
+                                for f, origin in st_.facts.items:
+                                    try:
+                                        if concrete(it, f, env) > 0:
+                                            taken = False
+                                    except KeyError:
+                                        pass
+                                if taken:
+                                    vals.append(concrete(it, v, env))
+                        except KeyError:
+                            return None
+                        if len(set(vals)) != 1:
+                            return None
+                        if int(vals[0]) != len(spec):
+                            return {"n": n, "w": w, "step": step, "fh": fh, "iw": iwv, "got": int(vals[0]), "want": len(spec)}
+    return True
+
+
 def check_window_class(ctx, repo, cname):
     cls = repo.cls(SPLIT + ":" + cname)
     mod = cls.module
@@ -473,8 +511,17 @@ def check_window_class(ctx, repo, cname):
                 good = r.args[0] == rets[0]
             elif isinstance(r, Lin) and len(rets) == 1 and isinstance(rets[0], Rng) and rets[0].length() is not None:
                 good = r == rets[0].length()
-        ctx.check(good, "R4", tag + ":get_n_splits", "get_n_splits == len(get_cutoffs(y))",
-                  "get_n_splits returns %r, not the number of reported cutoffs" % (rets4,), loc4)
+        if good is None and rets4 and all(isinstance(r, Lin) for r in rets4):
+            # a count computed arithmetically (floor / ceil forms): concretise every returning trace on the grid and compare
+            # with the specified number of splits
+            good = _count_on_grid(it4, [(s_, o_[1]) for s_, o_ in tr4 if o_[0] == "return"], sliding, iw, sww)
+            if isinstance(good, dict):
+                ctx.violation("R4", tag + ":get_n_splits", "get_n_splits returns %(got)s for n=%(n)d window=%(w)d step=%(step)d fh=%(fh)s "
+                              "initial_window=%(iw)s; %(want)d splits are yielded" % good, loc4, witness=good)
+                good = "reported"
+        if good != "reported":
+            ctx.check(good, "R4", tag + ":get_n_splits", "get_n_splits == len(get_cutoffs(y))",
+                      "get_n_splits returns %r, not the number of reported cutoffs" % (rets4,), loc4)
 
 
 def check_cutoff_splitter(ctx, repo):
